@@ -8,7 +8,7 @@ for id in $ids; do
   extra=""
   case "$id" in
     C31-m2) extra="C11";; C10-m2) extra="C12";; C12-m1) extra="C10";; C12-m2) extra="C11 C01";; C06-m1) extra="C05";;
-    C02-m2) extra="C10";; C08-m1) extra="C05";; C11-m1) extra="C01 C05";; C14-m1) extra="C36";; C14-m3) extra="C36";; C13-m1) extra="C11";;
+    C02-m2) extra="C10";; C08-m1) extra="C05";; C11-m1) extra="C01 C05";; C14-m1) extra="C36";; C14-m3) extra="C36";; C13-m1) extra="C11";; C36-m1) extra="C14";; C36-m2) extra="C14";; C15-m1) extra="C16";; C15-m2) extra="C16";;
   esac
   tools/mutant_sweep.sh "$out" /verif/seeded/$id/patch.diff $prop $extra
 done
